@@ -235,6 +235,8 @@ type scratchEnv struct {
 	err  error
 	sig  string // signature of err
 	seq  int
+	// extra files (relative path -> text) written next to pa/types.go by the next decide call only
+	extra map[string]string
 }
 
 func (e *scratchEnv) gomod() string {
@@ -366,6 +368,8 @@ func (env *scratchEnv) decide(rt *rapid.T, rec *kit.Rec, sigPrefix string, src s
 		}
 		rec.Failf(rt, sig, "%v", env.err)
 	}
+	extra := env.extra
+	env.extra = nil
 	env.seq++
 	caseDir := filepath.Join(env.base, fmt.Sprintf("c%d", env.seq))
 	defer os.RemoveAll(caseDir)
@@ -399,7 +403,7 @@ func (env *scratchEnv) decide(rt *rapid.T, rec *kit.Rec, sigPrefix string, src s
 			wg.Add(1)
 			go func(r *runT) {
 				defer wg.Done()
-				if r.err = env.writeModule(r.dir, map[string]string{"pa/types.go": src}); r.err != nil {
+				if r.err = env.writeModule(r.dir, filesOf(src, extra)); r.err != nil {
 					return
 				}
 				r.res = gombok(r.dir, r.gmp)
@@ -470,7 +474,7 @@ func (env *scratchEnv) decide(rt *rapid.T, rec *kit.Rec, sigPrefix string, src s
 		// run to run (and runs 1-3 agreed by chance)? Four more runs on pristine copies.
 		for i := 0; i < 4; i++ {
 			dir := filepath.Join(caseDir, fmt.Sprintf("m%d", 5+i), "scratch")
-			if err := env.writeModule(dir, map[string]string{"pa/types.go": src}); err != nil {
+			if err := env.writeModule(dir, filesOf(src, extra)); err != nil {
 				break
 			}
 			var r cmdResult
@@ -534,6 +538,14 @@ func labelSpec(rec *kit.Rec, p pkgSpec) {
 	}
 }
 
+func filesOf(src string, extra map[string]string) map[string]string {
+	m := map[string]string{"pa/types.go": src}
+	for k, v := range extra {
+		m[k] = v
+	}
+	return m
+}
+
 func lineOf(src, needle string) int {
 	for i, l := range strings.Split(src, "\n") {
 		if strings.HasPrefix(l, needle) {
@@ -576,6 +588,7 @@ func TestScratch(t *testing.T) {
 				}
 			})
 		})
+	importGivenCheck(t, env)
 	adaptorCheck(t, env)
 	generateCheck(t, env)
 }
